@@ -388,6 +388,9 @@ class CppParameter(CppBaseField):
     @cached_property
     def type_spec(self): return self._type_specifier(self.decl.type_ref, is_parameter=True, use_notnull=True)
 
+    @cached_property
+    def field_type_spec(self): return self._type_specifier(self.decl.type_ref)
+
 
 class CppErrorDomain(CppBaseType):
     decl: ErrorDomain = Field(exclude=True, repr=False)
